@@ -38,6 +38,10 @@ def check(ctx):
     _r4(ctx, pkg)
     _r4_callers(ctx, pkg)
     _r5(ctx, pkg)
+    # the duplicate report is computed from the reactions the network holds NOW: no memo of comparison keys survives an edit
+    # (shared with C14.R6, which covers every method of Network that keeps a memo of its own)
+    from .c14 import _r6 as live_views
+    ctx.absorb(lambda sub: live_views(sub, package(sub.tree)), "R6", only=lambda o: "find_duplicate_reaction" in o.key and o.outcome != "MISSING")
 
 
 def _r1(ctx, pkg):
